@@ -176,6 +176,44 @@ theorem pkScript_slice (v : Nat) (ins : List TxIn) (pre post : List TxOut) (o : 
     rw [e1, e2]
     exact drop_take_mid _ _ _
 
+/-! ### `SerializeSize = baseSize + 2 + Σ witness sizes` -/
+
+theorem witness_enc_length (t : Tx) (h : hasWitness t.2 = true) :
+    ((tx .witness).enc t).length = ((tx .base).enc t).length + 2 + (encList witness t.2.2.2.1).length := by
+  simp only [tx, charge, BV.Codec.guard, seq, seqDep, txBody, txBodyWitEnc, alt, h, if_true, txBodyWit, txBodyBase,
+    imap, magic, listN, List.length_append, List.length_cons, List.length_nil]
+  omega
+
+theorem witness_size_formula (t : Tx) (h : hasWitness t.2 = true) :
+    (tx .witness).size t = (tx .base).size t + 2 + sizeList witness t.2.2.2.1 := by
+  simp only [tx, charge, BV.Codec.guard, seq, seqDep, txBody, txBodyWitEnc, alt, h, if_true, txBodyWit, txBodyBase,
+    imap, magic, listN, List.length_cons, List.length_nil]
+  omega
+
+/-! ### the 12-byte command field -/
+
+theorem trimRight_pad (cmd : Bytes) (k : Nat) (h : cmd.getLast? ≠ some 0) :
+    ((cmd ++ List.replicate k 0).reverse.dropWhile (· == 0)).reverse = cmd := by
+  rw [List.reverse_append, List.reverse_replicate]
+  have h1 : ∀ (k : Nat) (l : Bytes), (List.replicate k (0 : UInt8) ++ l).dropWhile (· == 0) = l.dropWhile (· == 0) := by
+    intro k l
+    induction k with
+    | zero => rfl
+    | succ k ih => simp [List.replicate_succ, ih]
+  rw [h1]
+  cases hr : cmd.reverse with
+  | nil => simp [List.reverse_eq_nil_iff.mp hr]
+  | cons x xs =>
+    have hx : x ≠ 0 := by
+      intro hx0
+      have : cmd.getLast? = some x := by
+        rw [List.getLast?_eq_head?_reverse, hr]; rfl
+      rw [hx0] at this; exact h this
+    have : (x == 0) = false := by simpa using hx
+    simp only [List.dropWhile_cons, this]
+    have := congrArg List.reverse hr
+    simpa using this.symm
+
 /-! ### gates -/
 
 /-- the network address carries its timestamp exactly from `NetAddressTimeVersion` on -/
